@@ -130,12 +130,12 @@ theorem resend_inflight {X Y : AConn} {f : AFrame} {rest Q' : List AFrame} {b : 
 
 theorem dirsync_serve {X Y Y' : AConn} {f : AFrame} {rest Q' : List AFrame}
     (h : DirSync Y X Q' (f :: rest)) (hst : est X.st) (ho : Y'.o = Y.o) (he1 : 1 ≤ X.e)
-    (hk : keysOK Y.o Y.out) :
+    (hk : keysOK Y.o Y.out) (hmax : Y.o ≤ sysMaxsize + 1) :
     DirSync Y' X (Q' ++ (served Y f).2) rest ∧ (∀ g ∈ (served Y f).2, isData g) ∧ Y.same (served Y f).1 := by
   by_cases hres : ∃ b, f.kind = .resend b
   · obtain ⟨b, hb⟩ := hres
     obtain ⟨ha, rfl, g1, g2, g3, g4⟩ := resend_inflight h hst hb
-    obtain ⟨s1, s2, s3⟩ := serve_spec Y X.e he1 (by omega) hk
+    obtain ⟨s1, s2, s3⟩ := serve_spec Y X.e he1 (by omega) hk hmax
     have hsv : served Y f = Y.serve X.e := by simp [served, hb]
     rw [hsv]
     refine ⟨?_, s2, s3⟩
